@@ -98,7 +98,7 @@ func runC12(r *Run) {
 	var calls []*call
 	listersDone := 0
 	for l := 0; l < nListers; l++ {
-		nCalls := 3 + r.W.Pick(12)
+		nCalls := 6 + r.W.Pick(30)
 		kinds := make([]int, nCalls)
 		for i := range kinds {
 			kinds[i] = r.W.Pick(5)
@@ -111,13 +111,23 @@ func runC12(r *Run) {
 		w.s.GoNamed(fmt.Sprintf("lister%d", l), func() {
 			defer func() { listersDone++ }()
 			for i, k := range kinds {
-				simrt.Sleep(time.Duration(1+gaps[i])*time.Millisecond, "c12.lister-gap")
+				if gaps[i]%3 == 0 {
+					simrt.Sleep(time.Duration(1+gaps[i])*time.Millisecond, "c12.lister-gap")
+				} else {
+					for y := 0; y < gaps[i]%5; y++ { // back-to-back calls, a few scheduling points apart
+						simrt.Yield("c12.lister")
+					}
+				}
 				c := &call{inv: w.s.Steps}
 				switch k {
 				case 0, 1:
 					c.kind = "Players"
 					r.Op("Players")
 					for _, pl := range w.p.Players() {
+						if pl == nil {
+							r.Fail("list-mixes-moments", "Players-nil-entry", "Players() returned a list with a nil entry (sized at one moment, filled at another)")
+							return
+						}
 						c.names = append(c.names, pl.Username())
 					}
 				case 2:
